@@ -28,14 +28,27 @@
     statements turn the *reference engine's* old column order into the *reference engine's* new one (composition of
     the reader ↔ engine simulation C05.names_and_positions, the loop refinement and the walk refinement).
 
-  Missing for `Statement_partial`: the attribute / index / foreign-key lemmas (L-elem), i.e. everything a migration says
-  beyond the order and presence of columns.  Those parts are covered by the correspondence run and
+  * `indexes_and_keys_from_scripts` — **the index and foreign-key clauses, from scripts to printed statements**: for two
+    scripts of any length (vocabulary of `Stmt.elemSafe`: the above less DROP PRIMARY KEY and an index itself called
+    `primary_key`) that the reference engine accepts, loaded by the MySQL reader model and diffed, the record of a table
+    present on both sides prints — with no column dropped — exactly the CREATE / DROP INDEX statements
+    `Abs.Idx.emit` of the *reference engine's* two index lists (an index without a namesake is created, one whose
+    namesake differs in columns, uniqueness or index type is dropped and re-created, an equal one is left alone, an
+    old one without a namesake is dropped), and executed on the old index list they are well-formed at every step and
+    give the new index list up to order; likewise the ADD / DROP foreign-key statements are `Abs.Idx.emitKeep` of the two
+    foreign-key lists and — when no key found on both sides is redefined (recorded region `fk-redefined`) — turn the
+    old list into the new one.  (Reader fidelity on both slices, Proofs/FidelityElems; the slices `Table.Diff` leaves,
+    Proofs/DiffElems; refinement of `MigrationIndexUp` / `MigrationForeignKeyUp`, Proofs/IdxRefine; Abs/Idx.lean.)
+
+  Missing for `Statement_partial`: the attribute lemmas (a MODIFY for exactly the columns whose type or options
+  differ), the primary key, and the interplay of dropped columns with the indexes on them (drop suppression).  Those parts are covered by the correspondence run and
   by the executable predicate `Spec.c01` evaluated on the implementation's printed migration on every check.
 -/
 import SqlizeModel.Abs.Columns
 import SqlizeModel.Proofs.WalkRefine
 import SqlizeModel.Proofs.MergeRefine
 import SqlizeModel.Proofs.EndToEnd
+import SqlizeModel.Proofs.EndToEndElems
 import SqlizeModel.Impl.Api
 import SqlizeModel.Spec.Scope
 
@@ -92,6 +105,46 @@ theorem columns_from_scripts (g : Globals) (hg : g.dialect = .mysql) (hio : g.ig
   obtain ⟨td, hm, hn', _, ha, hup, _, hex, _⟩ :=
     columns_end_to_end g hg hio rc old new dbO dbN ho hn heo hen d hd t tbO tbN hfo hfn hc hne
   exact ⟨td, hm, hn', ha, hup, hex⟩
+
+/-- index and foreign-key clauses of C01 from scripts to printed statements (MySQL reader model) -/
+theorem indexes_and_keys_from_scripts (g : Globals) (hg : g.dialect = .mysql) (rc : Bool)
+    (old new : List Stmt) (dbO dbN : DB) (ho : old.all Stmt.elemSafe = true) (hn : new.all Stmt.elemSafe = true)
+    (heo : execAll rc [] old = some dbO) (hen : execAll rc [] new = some dbN)
+    (d : Migration) (hd : loadAndDiff g old new = .ok d)
+    (t : String) (tbO tbN : TableSpec) (hfo : dbO.find t = some tbO) (hfn : dbN.find t = some tbN) :
+    ∃ td ∈ d.tables, td.name = t ∧ td.action = .none ∧
+      (∃ ss, Table.walkIdx g t true [] td.idxs = .ok ss ∧
+        ss.filterMap idxStmt = Abs.Idx.emit tbN.idxs tbO.idxs ∧
+        ∃ R, Abs.Idx.execAll tbO.idxs (ss.filterMap idxStmt) = some R ∧ R.Perm tbN.idxs) ∧
+      ((Table.walkFk t true [] td.fks).filterMap fkStmt = Abs.Idx.emitKeep tbN.fks tbO.fks ∧
+        ((∀ s ∈ tbN.fks, ∀ o ∈ tbO.fks, s.name = o.name → s = o) →
+          ∃ R, Abs.Idx.execAll tbO.fks ((Table.walkFk t true [] td.fks).filterMap fkStmt) = some R ∧ R.Perm tbN.fks)) :=
+  elems_end_to_end g hg rc old new dbO dbN ho hn heo hen d hd t tbO tbN hfo hfn
+
+-- non-vacuity of `indexes_and_keys_from_scripts`: an index redefined under its name, one kept, one new, one dropped,
+-- a table-level primary key on one side; a foreign key added and one dropped
+def exOldE : List Stmt :=
+  [.createTable "u" 0 [{ name := "id", typ := "int(11)" }] ["id"],
+   .createTable "t" 0 [{ name := "a", typ := "int(11)" }, { name := "b", typ := "int(11)" }] [],
+   .createIndex "t" "i_keep" ["a"] false "",
+   .createIndex "t" "i_redef" ["a", "b"] true "",
+   .createIndex "t" "i_old" ["b"] false "HASH",
+   .addFk "t" "fk_old" "a" "u" "id"]
+def exNewE : List Stmt :=
+  [.createTable "u" 0 [{ name := "id", typ := "int(11)" }] ["id"],
+   .createTable "t" 0 [{ name := "a", typ := "int(11)" }, { name := "b", typ := "int(11)" }] ["a"],
+   .createIndex "t" "i_redef" ["b"] true "",
+   .createIndex "t" "i_keep" ["a"] false "BTREE",
+   .createIndex "t" "i_new" ["b", "a"] false "",
+   .addFk "t" "fk_new" "b" "u" "id"]
+example : exOldE.all Stmt.elemSafe = true ∧ exNewE.all Stmt.elemSafe = true ∧
+    (execAll true [] exOldE).isSome = true ∧ (execAll true [] exNewE).isSome = true := by decide
+example : ∃ d, loadAndDiff {} exOldE exNewE = .ok d ∧
+    (d.tables.map (fun t => ((Table.walkIdx {} t.name true [] t.idxs).toOption.map (·.filterMap idxStmt),
+                             (Table.walkFk t.name true [] t.fks).filterMap fkStmt))) =
+      [(some [], []),
+       (some [.drop "i_redef", .create ⟨"i_redef", ["b"], true, "BTREE"⟩, .create ⟨"i_new", ["b", "a"], false, "BTREE"⟩, .drop "i_old"],
+        [.create ⟨"fk_new", "b", "u", "id"⟩, .drop "fk_old"])] := ⟨_, by rfl, by decide⟩
 
 -- non-vacuity of `columns_from_scripts`: two scripts with histories (positional add, drop, modify) meeting every hypothesis
 def exOldS : List Stmt :=
